@@ -8,6 +8,8 @@ Decided (T8 + loop-exit rule, sound over-approximation of all paths):
   R3 an accept loop is left only when the listener's iterator ends (a failed accept()/stream is skipped, never `?`/break);
   R4 the TLS handshake runs in the spawned thread, never inline in the accept loop (a stalled peer cannot block accepts).
 Premise read from the repository: [profile.release] panic and the Makefile's --release.
+  R4 also: between accepting a connection and spawning its thread only the accepted item itself is tested (no cap / quota that
+  stalled clients could keep exhausted).
 """
 import os
 import re
